@@ -483,6 +483,7 @@ def main(tier, replay):
         for k, kind, req in neg:
             negative(ctx, srv, k, req, kind)
         concurrent(ctx, srv, 8 if tier == "quick" else 200)
+        replay_race(ctx, srv, 30 if tier == "quick" else 1000)
         if srv.p.poll() is not None:
             ctx.violation("c19:server-died", {"status": srv.p.returncode})
         return ctx.finish(500 if tier == "quick" else 4000)
@@ -593,6 +594,51 @@ def negative(ctx, srv, k, req, kind):
         # not a property violation (the statement only forbids passing deviations), but it means
         # the harness' idea of "deviation" is off: report as inconclusive so that it is looked at
         ctx.inconc({"negative_control_failed": kind, "step": STEPS[k], "outcome": out})
+
+
+def replay_race(ctx, srv, rounds):
+    """One step sent under one client id from 8 connections at the same instant: only one of the
+    eight is in sequence, the other seven are replays of a step that is already taken."""
+    for r in range(rounds):
+        k = 1 + r % 3  # Test01..Test03
+        try:
+            c0 = Conn(srv.path)
+            cid, prev, err = run_canonical(c0, k)
+            c0.close()
+            if err:
+                ctx.inconc({"replay_race": err})
+                continue
+            req = request(STEPS[k], cid, prev)
+            n = 8
+            barrier = threading.Barrier(n)
+            outs = [None] * n
+
+            def one(i):
+                try:
+                    c = Conn(srv.path)
+                    barrier.wait(timeout=10)
+                    outs[i] = outcome(c, req)
+                    c.close()
+                except Exception as e:  # noqa
+                    outs[i] = ("exception", repr(e))
+
+            ths = [threading.Thread(target=one, args=(i,)) for i in range(n)]
+            for t in ths:
+                t.start()
+            for t in ths:
+                t.join()
+        except (OSError, ValueError) as e:
+            ctx.inconc({"replay_race": repr(e)})
+            continue
+        ok = sum(1 for o in outs if o and o[0] == "success")
+        ctx.case(("replay-race", STEPS[k], r))
+        ctx.count("replay_races")
+        ctx.count("error_replies_observed", sum(1 for o in outs if o and o[0] == "error"))
+        if ok > 1:
+            ctx.violation("c19:deviation-passes:%s:replayed-step-in-a-race" % STEPS[k], {"engine": "c19", "step_name": STEPS[k], "kind": "replay-race", "request": req,
+                          "outcome": [o[0] if o else None for o in outs], "message": "%d of 8 simultaneous sends of one step under one client id got the step's success reply; at most one of them is in sequence" % ok})
+        elif any(o and o[0] in ("exception", "timeout") for o in outs):
+            ctx.inconc({"replay_race": [o for o in outs if o and o[0] in ("exception", "timeout")][:2]})
 
 
 def concurrent(ctx, srv, rounds):
